@@ -318,10 +318,14 @@ def monitor_ping(chk, napps=1, nresp=1):
         else:
             cover.add('ok')
             nows = [e for e in st.trace if e.kind == 'env' and e.name.endswith('TimeSource>::now')]
-            if len(nows) != 1 or ys != ['ScheduleChange'] or len(ufo) != 1:
+            # (an answer that names no app: updating the app set with nothing is a no-op, so the call may be absent)
+            if len(nows) != 1 or ys != ['ScheduleChange'] or (len(ufo) != 1 and not (nresp == 0 and not ufo)):
                 D.failed = D.failed or ('violated', 'successful ping flow wrong: %s' % sty, None, st)
                 continue
             D.require(st, z3.And(cnt1.t == 0, lut_is_now(ex, st, lut1, nows[0])), 'successful ping: count 0, last contact now')
+            if not ufo:
+                persist_tail_ok(ex, st, names, D, 'ping')
+                continue
             # app responses built from the response with NoUpdate
             a = ufo[0].args[1]
             av = a[2] if isinstance(a, tuple) else a
